@@ -1,7 +1,8 @@
 (* C13 - the property theorems, nothing else.  Each is closed by [exact] of a
    lemma from Lemmas.v and followed by Print Assumptions.
-   Model: C13/Model.v (the reader with the repairs of handoff/C13-fix-1..7.diff;
-   the pinned behaviour is kept as *_old, refuted in C13/Refuted.v). *)
+   Model: C13/Model.v (the reader with the repairs of handoff/C13-fix-1..7.diff and
+   handoff/C13-fix2-1..3.diff; the pinned behaviour is kept as *_old, the behaviour
+   before the fix2 diffs as *_head, both refuted in C13/Refuted.v). *)
 From CfdmV Require Import Common.Base C13.Model C13.Lemmas.
 Open Scope string_scope.
 Open Scope list_scope.
@@ -98,32 +99,138 @@ Theorem C13_bounds_missing_example :
 Proof. exact bounds_missing_example. Qed.
 Print Assumptions C13_bounds_missing_example.
 
-(* cell_measures (and, by the same code shape, ancillary_variables, grid_mapping and
-   formula terms with foreign dimensions): the full statement
-       "the other variables named by the attribute are still mapped"
-   is FALSE of the faithful model - the reader drops every construct of the attribute
-   (open findings with signature sibling-dropped).  What holds is all-or-nothing with a report: *)
-Theorem C13_measures_all_or_nothing_partial : forall ds field s k n cs ms,
-  In (k, [n]) (parse_x s) -> internal ds n = false -> mem n (externals ds) = false ->
-  measure_pass ds field s = ROk (cs, ms) ->
-  cs = [] /\ In (n, WMeasure, RMissingExt) ms.
-Proof. exact measures_all_or_nothing. Qed.
-Print Assumptions C13_measures_all_or_nothing_partial.
+(* THE WHOLE READ, coordinates attribute.  F' = the file whose variable vn has one token of
+   its coordinates attribute replaced by a name that cannot be mapped (verdict of the token:
+   no construct, report entries rep); F0 = the same file with the token removed.  Then
+   read F' and read F0 have the same outcome class (never an exception: C13_read_total), return
+   the same list of fields - also the field of the replacement variable itself when that is a
+   data variable of the file - every field identical except the one of vn, which has the same
+   constructs, coordinate references, cell methods and references, and whose report is that
+   of F0 with rep inserted.  Any dataset, any number of tokens, fault at any position. *)
+Theorem C13_read_coordinates_single_fault : forall ds vn l1 bad l2 s s' rep,
+  split_ws s' = l1 ++ bad :: l2 -> split_ws s = l1 ++ l2 ->
+  (forall fdims, ncdims (norm ds) vn = ROk fdims -> aux_one (norm ds) fdims bad = ROk ([], rep)) ->
+  res_rel (Forall2 (fun f' f => fault_rel rep f' f \/ f' = f))
+    (read_skel (edit ds vn "coordinates" (Some s'))) (read_skel (edit ds vn "coordinates" (Some s))).
+Proof. exact read_coordinates_single_fault. Qed.
+Print Assumptions C13_read_coordinates_single_fault.
 
-Theorem C13_measures_sibling_refuted :
-  measure_pass ds_two_measures "q" "area: area volume: vol" =
-    ROk ([mkCons CMeasure "area" None; mkCons CMeasure "vol" None], []) /\
-  measure_pass ds_two_measures "q" "area: nope_missing volume: vol" =
-    ROk ([], [("nope_missing", WMeasure, RMissingExt)]).
-Proof. exact measures_sibling_refuted. Qed.
-Print Assumptions C13_measures_sibling_refuted.
+(* ... instantiated for a name that is not in the file *)
+Theorem C13_read_coordinates_missing_name : forall ds vn l1 bad l2 s s',
+  split_ws s' = l1 ++ bad :: l2 -> split_ws s = l1 ++ l2 ->
+  internal ds bad = false ->
+  (forall fdims, ncdims (norm ds) vn = ROk fdims -> mem bad fdims = false) ->
+  res_rel (Forall2 (fun f' f => fault_rel [(bad, WAux, RMissing); (bad, WAux, RMissing)] f' f \/ f' = f))
+    (read_skel (edit ds vn "coordinates" (Some s'))) (read_skel (edit ds vn "coordinates" (Some s))).
+Proof. exact read_coordinates_missing_name. Qed.
+Print Assumptions C13_read_coordinates_missing_name.
 
-Theorem C13_ancillaries_sibling_refuted :
-  anc_pass ds_two_measures "q" "area vol" =
-    ROk ([mkCons CFieldAnc "area" None; mkCons CFieldAnc "vol" None], []) /\
-  anc_pass ds_two_measures "q" "nope_missing vol" = ROk ([], [("nope_missing", WAnc, RMissing)]).
-Proof. exact ancillaries_sibling_refuted. Qed.
-Print Assumptions C13_ancillaries_sibling_refuted.
+(* non-vacuity; the replacement `other` is itself an unreferenced data variable with foreign
+   dimensions: its own field is returned in both reads *)
+Theorem C13_read_coordinates_single_fault_example :
+  let ds := edit ds_example "q" "coordinates" (Some "t lat2") in
+  aux_one (norm ds) ["x"] "other" = ROk ([], [("other", WAux, RDims)]) /\
+  ncdims (norm ds) "q" = ROk ["x"] /\
+  map f_ncvar (match read_skel (edit ds "q" "coordinates" (Some "t other lat2")) with ROk fs => fs | _ => [] end)
+    = ["other"; "q"] /\
+  map f_ncvar (match read_skel (edit ds "q" "coordinates" (Some "t lat2")) with ROk fs => fs | _ => [] end)
+    = ["other"; "q"].
+Proof. exact read_coordinates_single_fault_example. Qed.
+Print Assumptions C13_read_coordinates_single_fault_example.
+
+(* The frame behind it: an edit of an attribute that is read on the data variable only
+   (coordinates, grid_mapping, cell_measures, cell_methods, ancillary_variables) changes
+   nothing of what the reader sees when it follows a reference, so the fields of all
+   other variables are computed from the same dataset. *)
+Theorem C13_edit_frame : forall ds vn a val, lookup_attr a = false -> norm (edit ds vn a val) = norm ds.
+Proof. exact norm_edit. Qed.
+Print Assumptions C13_edit_frame.
+
+(* Single-fault tolerance for cell_measures and ancillary_variables (with fix2-1 each entry
+   is judged on its own): any number of entries, fault at any position - the constructs are
+   exactly those of the other entries, in order, the report has the culprit's entries inserted. *)
+Theorem C13_measures_single_fault : forall ds field p1 bad p2 rep c1 m1 c2 m2,
+  measure_one ds field bad = ROk ([], rep) ->
+  measure_entries ds field p1 = ROk (c1, m1) -> measure_entries ds field p2 = ROk (c2, m2) ->
+  measure_entries ds field (p1 ++ bad :: p2) = ROk (c1 ++ c2, m1 ++ rep ++ m2) /\
+  measure_entries ds field (p1 ++ p2) = ROk (c1 ++ c2, m1 ++ m2).
+Proof. intros ds field. exact (concat_pass_single_fault (measure_one ds field)). Qed.
+Print Assumptions C13_measures_single_fault.
+
+Theorem C13_measures_missing_name : forall ds field d k n,
+  ncdims ds field = ROk d -> internal ds n = false -> mem n (externals ds) = false ->
+  measure_one ds field (k, [n]) = ROk ([], [(n, WMeasure, RMissingExt)]).
+Proof. exact measure_one_missing. Qed.
+Print Assumptions C13_measures_missing_name.
+
+Theorem C13_measures_foreign_dimensions : forall ds field d k n dn,
+  ncdims ds field = ROk d -> internal ds n = true -> mem n (externals ds) = false ->
+  ncdims ds n = ROk dn -> dims_are_subset ds n dn d = ROk false ->
+  measure_one ds field (k, [n]) = ROk ([], [(n, WMeasure, RDims)]).
+Proof. exact measure_one_foreign. Qed.
+Print Assumptions C13_measures_foreign_dimensions.
+
+Theorem C13_measures_single_fault_example :
+  measure_one ds_two_measures "q" ("area", ["nope_missing"]) = ROk ([], [("nope_missing", WMeasure, RMissingExt)]) /\
+  measure_entries ds_two_measures "q" [("area", ["area"])] = ROk ([mkCons CMeasure "area" None], []) /\
+  measure_entries ds_two_measures "q" [("volume", ["vol"])] = ROk ([mkCons CMeasure "vol" None], []).
+Proof. exact measures_single_fault_example. Qed.
+Print Assumptions C13_measures_single_fault_example.
+
+Theorem C13_ancillaries_single_fault : forall ds field l1 bad l2 rep c1 m1 c2 m2,
+  anc_one ds field bad = ROk ([], rep) ->
+  anc_toks ds field l1 = ROk (c1, m1) -> anc_toks ds field l2 = ROk (c2, m2) ->
+  anc_toks ds field (l1 ++ bad :: l2) = ROk (c1 ++ c2, m1 ++ rep ++ m2) /\
+  anc_toks ds field (l1 ++ l2) = ROk (c1 ++ c2, m1 ++ m2).
+Proof. intros ds field. exact (concat_pass_single_fault (anc_one ds field)). Qed.
+Print Assumptions C13_ancillaries_single_fault.
+
+Theorem C13_ancillaries_missing_name : forall ds field d n,
+  ncdims ds field = ROk d -> internal ds n = false ->
+  anc_one ds field n = ROk ([], [(n, WAnc, RMissing)]).
+Proof. exact anc_one_missing. Qed.
+Print Assumptions C13_ancillaries_missing_name.
+
+Theorem C13_ancillaries_foreign_dimensions : forall ds field d n dn,
+  ncdims ds field = ROk d -> internal ds n = true -> ncdims ds n = ROk dn ->
+  dims_are_subset ds n dn d = ROk false ->
+  anc_one ds field n = ROk ([], [(n, WAnc, RDims)]).
+Proof. exact anc_one_foreign. Qed.
+Print Assumptions C13_ancillaries_foreign_dimensions.
+
+(* Single-fault tolerance for formula_terms (fix2-2): the domain ancillaries of a parametric
+   coordinate are made term by term; a term whose variable is missing or spans a dimension
+   that the data variable does not span gives no construct and stays in the coordinate
+   reference without a value; the other terms are unaffected.  Any number of terms. *)
+Theorem C13_formula_terms_single_fault : forall ds fd bt t1 term bad t2 rep c1 ts1 m1 c2 ts2 m2,
+  ft_ancillaries ds fd bt [(term, bad)] = ROk ([], [(term, None)], rep) ->
+  ft_ancillaries ds fd bt t1 = ROk (c1, ts1, m1) -> ft_ancillaries ds fd bt t2 = ROk (c2, ts2, m2) ->
+  ft_ancillaries ds fd bt (t1 ++ (term, bad) :: t2) =
+    ROk (c1 ++ c2, ts1 ++ (term, None) :: ts2, m1 ++ rep ++ m2).
+Proof. exact formula_terms_single_fault. Qed.
+Print Assumptions C13_formula_terms_single_fault.
+
+Theorem C13_formula_terms_foreign_dimensions : forall ds fd bt term n d cm,
+  ncdims ds n = ROk d ->
+  create_bounded ds CDomAnc n
+    (match get_term term bt with Some (Some b) => if String.eqb b n then None else Some b | _ => None end) = ROk cm ->
+  Nat.eqb (length (filter (fun x => mem x fd) d)) (length d) = false ->
+  ft_ancillaries ds fd bt [(term, Some n)] = ROk ([], [(term, None)], snd cm ++ [(n, WFt, RDims)]).
+Proof. exact ft_term_foreign. Qed.
+Print Assumptions C13_formula_terms_foreign_dimensions.
+
+(* grid_mapping: here the reader is all-or-nothing, and that is the statement: a grid
+   mapping variable or a grid mapping coordinate variable that is not in the file, anywhere
+   in the attribute, makes the verdict of _check_grid_mapping False (field_rest then makes no
+   coordinate reference from the attribute) and is named in the report. *)
+Theorem C13_grid_mapping_all_or_nothing : forall ds parsed gm coords,
+  In (gm, coords) parsed ->
+  (internal ds gm = false -> fst (check_gm_list ds parsed) = false /\
+                             In (gm, WGm, RMissing) (snd (check_gm_list ds parsed))) /\
+  (forall c, In c coords -> internal ds c = false ->
+     fst (check_gm_list ds parsed) = false /\ In (c, WGmCoord, RMissing) (snd (check_gm_list ds parsed))).
+Proof. exact check_gm_list_missing. Qed.
+Print Assumptions C13_grid_mapping_all_or_nothing.
 
 (* All files are closed: whatever further datasets the body of the read opens, and
    whether it returns or raises (at any point), the trace of cfdm.read is: the opens,
